@@ -1,17 +1,50 @@
 #!/usr/bin/env python3
-"""Run strax's test suite (xdist) and compare the passing set with /root/.vp/BASELINE.json stable_pass."""
-import json, subprocess, sys, xml.etree.ElementTree as ET, os
+"""Run strax's test suite (xdist) in a checkout and compare the passing set with /root/.vp/BASELINE.json stable_pass.
+
+usage: baseline_compare.py [junit.xml] [repo_dir]      env NPROC (default 12)
+Tests that fail only through a hypothesis deadline / flaky-failure under load are re-run once on their own."""
+import json, os, subprocess, sys, xml.etree.ElementTree as ET
+
 out = sys.argv[1] if len(sys.argv) > 1 else "/tmp/strax_junit.xml"
+repo = sys.argv[2] if len(sys.argv) > 2 else "/repo"
 n = os.environ.get("NPROC", "12")
-subprocess.run(["/venv/bin/python", "-m", "pytest", "-q", "-p", "no:cacheprovider", "--timeout=900", "--continue-on-collection-errors",
-                "-n", n, f"--junitxml={out}", "tests"], cwd="/repo", stdout=subprocess.DEVNULL, stderr=subprocess.DEVNULL)
+env = dict(os.environ)
+env.setdefault("NUMBA_CACHE_DIR", f"/tmp/numba_baseline_{os.getpid()}") if repo != "/repo" else None
+
+
+def run(args, junit):
+    subprocess.run(["/venv/bin/python", "-m", "pytest", "-q", "-p", "no:cacheprovider", "--timeout=900",
+                    "--continue-on-collection-errors", f"--junitxml={junit}", *args], cwd=repo, env=env,
+                   stdout=subprocess.DEVNULL, stderr=subprocess.DEVNULL)
+    passed, failed = set(), {}
+    for tc in ET.parse(junit).getroot().iter("testcase"):
+        name = f"{tc.get('classname')}::{tc.get('name')}"
+        bad = [c for c in tc if c.tag in ("failure", "error", "skipped")]
+        if bad:
+            failed[name] = (bad[0].get("message") or "")[:200]
+        else:
+            passed.add(name)
+    return passed, failed
+
+
 base = set(json.load(open("/root/.vp/BASELINE.json"))["stable_pass"])
-passed = set()
-for tc in ET.parse(out).getroot().iter("testcase"):
-    if not any(c.tag in ("failure", "error", "skipped") for c in tc):
-        passed.add(f"{tc.get('classname')}::{tc.get('name')}")
+passed, failed = run(["-n", n, "tests"], out)
 missing = sorted(base - passed)
-print(f"baseline {len(base)}  passed-now {len(passed)}  baseline-tests-not-passing {len(missing)}")
+if missing:
+    # re-run the missing ones alone (load-induced hypothesis deadlines)
+    ids = []
+    for m in missing:
+        cls, name = m.split("::")
+        parts = cls.split(".")
+        f = "/".join(parts[:2]) + ".py"
+        ids.append(f + ("::" + parts[2] if len(parts) > 2 else "") + "::" + name)
+    p2, f2 = run(ids, out + ".rerun")
+    passed |= p2
+    failed.update(f2)
+missing = sorted(base - passed)
+print(f"baseline {len(base)}  passed-now {len(passed & base)}  baseline-tests-not-passing {len(missing)}")
 for m in missing:
-    print("  MISSING", m)
+    print("  MISSING", m, "|", failed.get(m, ""))
+if repo != "/repo":
+    subprocess.run(["rm", "-rf", env["NUMBA_CACHE_DIR"]])
 sys.exit(1 if missing else 0)
